@@ -8,6 +8,16 @@
           9 Head+Next walk  10 Remove k  11 Clear  12 Range stop  13 All stop  14 Keys  15 Values
           16 RangeWithStart s stop  17 RangeWithRange s e stop  18 Shape (level field, len(node.next) per node)
      stop = n > 0: the callback returns false on its n-th call; 0: never.
+   19 g R as the FIRST operation ("independent lists"): the rest of the sequence (the round; no Shape in it) is executed
+     R times in a row (3 <= R) on each of g+1 (1 <= g <= 63) independent lists, every list by a goroutine of its own, all
+     at the same time, the lists keeping the random source the library gave them (nothing is scripted: the words of the
+     case only choose the model's towers in round 1, later rounds draw 0; the map-level results do not depend on them,
+     c02_skip_refines_omap).  Output = results of rounds 1, 2 and 3 ++ [number of the rounds 4..R whose
+     results equal those of round 3; number of the g other lists whose whole output equals the first list's].
+     Model and specification run three rounds and answer [R-3; g] there, on the ground of a computed check: the state
+     (specification: the map) after round 3 is the one after round 2, so every later round starts where round 3 started
+     and repeats it (any sequence has this property: which keys are bound is settled after round 1, their values and,
+     with the words used up, their towers after round 2; a case that does not pass the check is BADCASE).
    sub 0 = model output ([PANIC] when the Go code would panic); sub 1 = sorted-map specification output
    (WILD for the tower heights, which the specification does not constrain). *)
 From Coq Require Import List ZArith Bool Arith.
@@ -38,6 +48,9 @@ Definition cmp_of (order : Z) (a b : Z) : comparison :=
   else match Z.rem a 4 ?= Z.rem b 4 with Eq => a ?= b | c => c end.
 
 Definition str_back (l : list Z) : Z := fold_right (fun d acc => acc * 3 + (d - 97) + 1) 0 l.
+
+Fixpoint zl_eqb (a b : list Z) : bool :=
+  match a, b with [], [] => true | x :: a', y :: b' => (x =? y) && zl_eqb a' b' | _, _ => false end.
 
 Section Dec.
 Variable K : Type.
@@ -89,6 +102,46 @@ Definition run_case (cmp : K -> K -> comparison) (vr : variant) (sub : Z) (ws r'
       else [BADCASE]
   | None => [BADCASE]
   end.
+
+(* ---- op 19: the round `r'` repeated R times on each of g+1 independent lists *)
+Definition no_shape (ops : list (op K Z)) : bool :=
+  forallb (fun o => match o with OShape => false | _ => true end) ops.
+(* canonical rendering of a model state: fields, the chain of every level, the bindings in key order *)
+Definition enc_state (cmp : K -> K -> comparison) (s : sk K Z) : list Z :=
+  Z.of_nat (level s) :: len s :: zb (has_rand s) :: zb (is_zero s) ::
+  flat_map (fun l => put_list (map ke l)) (levels s) ++ enc_pairs (pairs K Z cmp 0 s).
+Fixpoint s_exec (cmp : K -> K -> comparison) (m : omap K Z) (ops : list (op K Z)) : omap K Z :=
+  match ops with [] => m | o :: t => s_exec cmp (fst (s_step K Z cmp m o)) t end.
+Definition rep_case (cmp : K -> K -> comparison) (vr : variant) (sub g R : Z) (ws r' : list Z) : list Z :=
+  if (g <? 1) || (63 <? g) || (R <? 3) || (10000000 <? R) then [BADCASE] else
+  match dec_ops (length r') r' with
+  | Some ops =>
+      if negb (no_shape ops) then [BADCASE] else
+      if sub =? 0 then
+        match run K Z cmp 0 vr zero ops ws, exec K Z cmp 0 vr zero ops ws with
+        | Some o1, Some s1 =>
+            match run K Z cmp 0 vr s1 ops [], exec K Z cmp 0 vr s1 ops [] with
+            | Some o2, Some s2 =>
+                match run K Z cmp 0 vr s2 ops [], exec K Z cmp 0 vr s2 ops [] with
+                | Some o3, Some s3 =>
+                    if zl_eqb (enc_state cmp s2) (enc_state cmp s3)
+                    then flat_map (enc_res false) (o1 ++ o2 ++ o3) ++ [R - 3; g] else [BADCASE]
+                | _, _ => [PANIC]
+                end
+            | _, _ => [PANIC]
+            end
+        | _, _ => [PANIC]
+        end
+      else if sub =? 1 then
+        let m1 := s_exec cmp [] ops in
+        let m2 := s_exec cmp m1 ops in
+        let m3 := s_exec cmp m2 ops in
+        if zl_eqb (enc_pairs m2) (enc_pairs m3)
+        then flat_map (enc_res true) (s_run K Z cmp [] ops ++ s_run K Z cmp m1 ops ++ s_run K Z cmp m2 ops) ++ [R - 3; g]
+        else [BADCASE]
+      else [BADCASE]
+  | None => [BADCASE]
+  end.
 End Dec.
 
 Fixpoint dec_words (n : nat) (l : list Z) : option (list Z * list Z) :=
@@ -106,8 +159,18 @@ Definition entry (sub : Z) (args : list Z) : list Z :=
       if (kind <? 0) || (7 <? kind) || ((kind =? 1) || (kind =? 2)) || (nw <? 0) then [BADCASE] else
       match dec_words (Z.to_nat nw) r with
       | Some (ws, r') =>
-          if order =? 3 then run_case (list Z) str_of str_back lexcmp vr sub ws r'        (* string keys *)
-          else run_case Z (fun z => z) (fun z => z) (cmp_of order) vr sub ws r'
+          match r' with
+          | c :: g :: R :: _ :: body =>
+              if c =? 19 then
+                if order =? 3 then rep_case (list Z) str_of str_back lexcmp vr sub g R ws body
+                else rep_case Z (fun z => z) (fun z => z) (cmp_of order) vr sub g R ws body
+              else
+                if order =? 3 then run_case (list Z) str_of str_back lexcmp vr sub ws r'        (* string keys *)
+                else run_case Z (fun z => z) (fun z => z) (cmp_of order) vr sub ws r'
+          | _ =>
+              if order =? 3 then run_case (list Z) str_of str_back lexcmp vr sub ws r'
+              else run_case Z (fun z => z) (fun z => z) (cmp_of order) vr sub ws r'
+          end
       | None => [BADCASE]
       end
   | _ => [BADCASE]
@@ -136,4 +199,19 @@ Proof. vm_compute. reflexivity. Qed.
 Example anchor5 : (* string keys: "" < "a" < "aa" < "ab" < "b"; tokens 0,1,4,7,2 *)
   entry 0 [3; 0; 1;2;20;0; 1;7;70;0; 1;0;5;0; 1;4;40;0; 1;1;10;0; 14;0;0;0; 16;4;0;0; 5;1;0;0]
   = [5; 0;1;4;7;2; 6; 4;40; 7;70; 2;20; 1;1;10;1;4].
+Proof. vm_compute. reflexivity. Qed.
+Example anchor6 : (* independent lists: the round Set 1 10; Get 1; Remove 1; Len, 5 times on each of 4 lists *)
+  entry 0 [0; 1; 0;1; 19;3;5;0; 1;1;10;0; 4;1;0;0; 10;1;0;0; 7;0;0;0] = [10;1; 10;1; 0; 10;1; 10;1; 0; 10;1; 10;1; 0; 2; 3].
+Proof. vm_compute. reflexivity. Qed.
+Example anchor6s :
+  entry 1 [0; 1; 0;1; 19;3;5;0; 1;1;10;0; 4;1;0;0; 10;1;0;0; 7;0;0;0] = [10;1; 10;1; 0; 10;1; 10;1; 0; 10;1; 10;1; 0; 2; 3].
+Proof. vm_compute. reflexivity. Qed.
+Example anchor7 : (* rounds 1, 2 and 3 all differ: SetX misses, SetNx binds 2 to 5 | Get sees 5, SetX hits | Get sees 7 *)
+  entry 0 [0; 0; 19;2;4;0; 4;2;0;0; 3;2;7;0; 2;2;5;0] = [0;0; 0; 1;  5;1; 1; 0;  7;1; 1; 0;  1; 2].
+Proof. vm_compute. reflexivity. Qed.
+Example anchor8 : (* SkipListWithCmp: Init in the round, every round starts empty *)
+  entry 0 [4; 0; 19;1;9;0; 0;0;0;0; 4;2;0;0; 2;2;5;0; 3;2;7;0; 2;2;6;0; 14;0;0;0]
+  = [0;0; 1; 1; 0; 1;2;  0;0; 1; 1; 0; 1;2;  0;0; 1; 1; 0; 1;2;  6; 1].
+Proof. vm_compute. reflexivity. Qed.
+Example anchor9 : entry 0 [0; 0; 19;2;4;0; 1;2;7;0; 18;0;0;0] = [BADCASE].
 Proof. vm_compute. reflexivity. Qed.
